@@ -241,41 +241,61 @@ class Tensor:
         return f"{self.__class__.__name__}({self.array.tolist()})"
 
     def _get_index_mapping(self, index: TensorIndex) -> list[int | None]:
-        normalized_index = normalize_index(index, self.shape)  # type: ignore[no-untyped-call]
-        advanced_indices = []
-        index_mapping: list[int | None] = list(range(self.rank))
-        i = 0
-        for ind in normalized_index:
-            # axis with integer index will be removed
-            if isinstance(ind, int):
-                index_mapping.pop(i)
-                continue
+        """Maps every axis of ``self.array[index]`` to the axis of ``self.array`` it is taken from.
 
-            # new axis inserted by None index
-            if ind is None:
-                index_mapping.insert(i, None)
+        Axes that are created by the index (``None`` or the broadcast axes of advanced indices) are mapped to ``None``.
 
-            # advanced indexing
-            elif isinstance(ind, np.ndarray):
-                advanced_indices.append(i)
+        """
+        items = list(index) if isinstance(index, tuple) else [index]
+        items = [np.asarray(i) if isinstance(i, (list, np.ndarray, bool, np.bool_)) else i for i in items]
 
-            i += 1
+        def consumed_axes(ind: object) -> int:
+            if ind is None or ind is Ellipsis:
+                return 0
+            if isinstance(ind, np.ndarray) and ind.dtype == np.bool_:
+                return ind.ndim
+            return 1
 
-        if len(advanced_indices) == 0:
-            return index_mapping
+        # replace the ellipsis (an implicit one at the end) by full slices
+        missing: list[object] = [slice(None)] * (self.rank - sum(consumed_axes(i) for i in items))
+        if not any(i is Ellipsis for i in items):
+            items.append(Ellipsis)
+        elif len(missing) == 0:
+            # an ellipsis that stands for no axis at all still separates advanced indices
+            missing = [Ellipsis]
+        k = next(k for k, i in enumerate(items) if i is Ellipsis)
+        items = items[:k] + missing + items[k + 1 :]
 
-        b = np.broadcast(*[normalized_index[i] for i in advanced_indices])
-        a0, a1 = advanced_indices[0], advanced_indices[-1]
+        # an integer is an advanced index as soon as there is an index array
+        has_arrays = any(isinstance(i, np.ndarray) for i in items)
+        advanced = [isinstance(i, np.ndarray) or (has_arrays and isinstance(i, (int, np.integer))) for i in items]
 
-        if advanced_indices != list(range(a0, a1 + 1)):
-            # create advanced indices in front
-            for i in advanced_indices:
-                index_mapping.remove(i)
-            new_indices: list[int | None] = [None] * b.ndim
-            return new_indices + index_mapping
-        else:
-            # replace indices with broadcast shape
-            return index_mapping[:a0] + [None] * b.ndim + index_mapping[a1 + 1 :]
+        # result axes of the basic indices (an axis with an integer index is removed)
+        basic_mapping: list[int | None] = []
+        broadcast_ndim = 0
+        axis = 0
+        for ind in items:
+            if isinstance(ind, np.ndarray):
+                broadcast_ndim = max(broadcast_ndim, 1 if ind.dtype == np.bool_ else ind.ndim)
+            elif ind is None:
+                basic_mapping.append(None)
+            elif isinstance(ind, slice):
+                basic_mapping.append(axis)
+            axis += consumed_axes(ind)
+
+        if not has_arrays:
+            return basic_mapping
+
+        new_indices: list[int | None] = [None] * broadcast_ndim
+        positions = [k for k, a in enumerate(advanced) if a]
+
+        if positions != list(range(positions[0], positions[-1] + 1)):
+            # advanced indices that are separated by a slice or a new axis: the broadcast axes come first
+            return new_indices + basic_mapping
+
+        # adjacent advanced indices are replaced by the broadcast axes
+        a0 = len([i for i in items[: positions[0]] if i is None or isinstance(i, slice)])
+        return basic_mapping[:a0] + new_indices + basic_mapping[a0:]
 
     def __getitem__(self, index: TensorIndex) -> Tensor | np.generic:
         result = self.array[index]
